@@ -3,6 +3,7 @@
 from __future__ import annotations
 
 import dataclasses
+from collections.abc import Mapping
 import enum
 import math
 import struct
@@ -81,7 +82,7 @@ def canon_py(x: Any) -> Any:
         return ("seq", tuple(canon_py(y) for y in x))
     if isinstance(x, (set, frozenset)):
         return ("set", tuple(sorted((canon_py(y) for y in x), key=repr)))
-    if isinstance(x, dict):
+    if isinstance(x, Mapping):  # dict, immutabledict
         return ("dict", tuple(sorted(((canon_py(k), canon_py(v)) for k, v in x.items()), key=repr)))
     if dataclasses.is_dataclass(x) and not isinstance(x, type):
         return ("obj", type(x).__name__,
@@ -105,7 +106,10 @@ def _op_name(op) -> str:
     from xdsl.dialects.builtin import UnregisteredOp
 
     if isinstance(op, UnregisteredOp):
-        return "unregistered:" + op.op_name.data
+        try:
+            return "unregistered:" + op.op_name.data
+        except ValueError:  # the bare class `builtin.unregistered` without a name
+            return "unregistered:<no op_name__>"
     return op.name
 
 
